@@ -12,6 +12,11 @@ def make_cases(seed, n, nvalues, tag, **cfg):
     cases = []
     for k in range(n):
         prog, rng = gen.rand_case(seed, k, **cfg)
+        if k % 4 == 3:
+            # c.struct_packing_alignment changes the struct layout, never the wire
+            mainf = prog["files"][prog["main"]]
+            pi = [i for i, x in enumerate(mainf) if x["d"] == "proto"][0]
+            mainf.insert(pi + 1, {"d": "option", "name": "c.struct_packing_alignment", "v": gen.lit(rng.choice([1, 2, 4, 8]))})
         t = prog["rtype"]
         vals = [gen.gen_value(rng, t, "zero"), gen.gen_value(rng, t, "ones")]
         vals += [gen.gen_value(rng, t, "rand") for _ in range(nvalues - 2)]
